@@ -34,6 +34,8 @@ type scriptConn struct {
 	written     []byte
 	writeCalls  []int
 	failWriteAt int // fail once the total number of written bytes would exceed this; -1 never
+	blockWritesAt int // from this total on, writes block (peer stopped reading) until the write deadline or Close; -1 never
+	wdl         time.Time
 	onWrite     func(total int, p []byte)
 
 	closed     bool
@@ -45,7 +47,7 @@ type scriptConn struct {
 }
 
 func newScriptConn() *scriptConn {
-	c := &scriptConn{failWriteAt: -1}
+	c := &scriptConn{failWriteAt: -1, blockWritesAt: -1}
 	c.cond = sync.NewCond(&c.mu)
 	return c
 }
@@ -125,6 +127,24 @@ func (c *scriptConn) Write(p []byte) (int, error) {
 		return 0, &net.OpError{Op: "write", Net: "tcp", Err: net.ErrClosed}
 	}
 	c.writeCalls = append(c.writeCalls, len(p))
+	for c.blockWritesAt >= 0 && len(c.written)+len(p) > c.blockWritesAt {
+		// back-pressure: nothing is accepted; only the write deadline or Close ends the wait
+		if c.closed {
+			c.mu.Unlock()
+			return 0, &net.OpError{Op: "write", Net: "tcp", Err: net.ErrClosed}
+		}
+		if !c.wdl.IsZero() {
+			if !time.Now().Before(c.wdl) {
+				c.mu.Unlock()
+				return 0, &net.OpError{Op: "write", Net: "tcp", Err: os.ErrDeadlineExceeded}
+			}
+			t := time.AfterFunc(time.Until(c.wdl)+time.Millisecond, c.cond.Broadcast)
+			c.cond.Wait()
+			t.Stop()
+			continue
+		}
+		c.cond.Wait()
+	}
 	if c.failWriteAt >= 0 && len(c.written)+len(p) > c.failWriteAt {
 		k := c.failWriteAt - len(c.written)
 		if k < 0 {
@@ -158,6 +178,7 @@ func (c *scriptConn) LocalAddr() net.Addr  { return &net.TCPAddr{IP: net.IPv4(12
 func (c *scriptConn) RemoteAddr() net.Addr { return &net.TCPAddr{IP: net.IPv4(127, 0, 0, 1), Port: 9000} }
 func (c *scriptConn) SetDeadline(t time.Time) error {
 	c.SetReadDeadline(t)
+	c.SetWriteDeadline(t)
 	return nil
 }
 func (c *scriptConn) SetReadDeadline(t time.Time) error {
@@ -167,7 +188,13 @@ func (c *scriptConn) SetReadDeadline(t time.Time) error {
 	c.cond.Broadcast()
 	return nil
 }
-func (c *scriptConn) SetWriteDeadline(t time.Time) error { return nil }
+func (c *scriptConn) SetWriteDeadline(t time.Time) error {
+	c.mu.Lock()
+	c.wdl = t
+	c.mu.Unlock()
+	c.cond.Broadcast()
+	return nil
+}
 
 func (c *scriptConn) snapshot() (written []byte, closed bool, closeCalls int, unread int) {
 	c.mu.Lock()
